@@ -114,6 +114,7 @@ class Tap:
 
         def rec_init(i, c, r, a, k):
             tap.obs.append((i, "init", bool(c._is_client)))
+            c._verif_trace = getattr(c, "_quic_logger", None)  # (the connection forgets its trace when it terminates)
 
         def rec_event(i, c, r, a, k):
             if r is not None:
@@ -140,7 +141,7 @@ class Tap:
 
         def receive_datagram(self_, data, addr, now):
             i = idx(self_)
-            tr = getattr(self_, "_quic_logger", None)
+            tr = getattr(self_, "_verif_trace", None)
             before = len(tr._events) if tr is not None else None
             open_before = self_._state.name not in ("CLOSING", "DRAINING", "TERMINATED")
             try:
@@ -397,7 +398,7 @@ def qlog_checks(ctx, case, mode, made, tap, strict_received):
         for tr in lg._traces:
             nev += len(tr._events)
     for i, c in enumerate(tap.conns):
-        tr = getattr(c, "_quic_logger", None)
+        tr = getattr(c, "_verif_trace", None)
         if tr is None:
             continue
         role = "client" if c._is_client else "server"
@@ -431,6 +432,12 @@ def qlog_checks(ctx, case, mode, made, tap, strict_received):
                         "qlog-received-datagram-without-one-record-per-packet",
                         "%s (connection %d, mode %s): a delivered %d-byte datagram with %d packets %r added the records %r" % (role, i, mode, len(data), len(pk), pk, [(e["name"].split(":")[1], e["data"].get("trigger")) for e in added]), case,
                     )
+            elif pk and open_before and state_after not in ("CLOSING", "DRAINING", "TERMINATED") and not added:
+                # whatever the scenario: a datagram that holds at least one packet leaves at least one record (received or dropped)
+                ctx.violation(
+                    "qlog-received-datagram-without-any-record",
+                    "%s (connection %d, mode %s): a delivered %d-byte datagram with packets %r added no packet_received / packet_dropped record" % (role, i, mode, len(data), pk[:4]), case,
+                )
         if strict_received:
             for g in got:
                 if g[0] in ("retry", "version_negotiation"):
@@ -498,7 +505,10 @@ def strategy(kind):
     if kind == "raw":
         from props import C05
 
-        return C05.raw_strategy().map(lambda c: {"kind": "raw", "case": c})
+        # (plus: a client in its first flight receiving Version Negotiation / Retry packets that carry its connection IDs)
+        special = st.lists(st.one_of(st.tuples(st.just("vn"), st.sampled_from(["current", "current+other", "other", "none", "unknown"]), st.just(True)), st.tuples(st.just("retry"), st.sampled_from([0, 16, 100]), st.booleans()), st.tuples(st.just("genuine"), st.integers(0, 3))), min_size=1, max_size=4)
+        directed = special.map(lambda inputs: {"kind": "raw", "state": "client-connecting", "inputs": inputs})
+        return st.one_of(C05.raw_strategy(), C05.raw_strategy(), directed).map(lambda c: {"kind": "raw", "case": c})
     if kind == "tls":
         from vlib import tlspeer
 
